@@ -1,11 +1,11 @@
-(* C01 — chips are conserved at every point of a hand (running clauses).
+(* C01 — chips are conserved at every point of a hand (running clauses and closing clauses).
    seat_ok p : bankroll = stack + wager + pot, initial stack = stack + wager, none of the three negative
    Cinv0 g   : every seat is seat_ok, the round pot equals the sum of the wagers, wager to match >= 0,
                minimum raise >= 0
    run g ops : the state after any list of operations (table operations and actions by any seat,
                with any integer amount), refused ones leaving the state as it is *)
 From Coq Require Import Lia.
-From PF Require Import Base ModelGame ProofsChips ProofsInv.
+From PF Require Import Base ModelPot ModelSettle ModelGame ProofsChips ProofsInv ProofsSettle ProofsResult.
 
 (* in every state reachable from a created hand, by every sequence of operations with every amount
    argument: each seat's bankroll identity holds, nothing is negative, the round pot is the sum of
@@ -49,3 +49,49 @@ Example C01_reachable_example :
 Proof.
   cbv zeta. split; [unfold cfg_ok; simpl; lia|]. eexists. split; [vm_compute; reflexivity|vm_compute; reflexivity].
 Qed.
+
+(* whenever pots are published (updatePots: at every round close, after the antes, before settlement)
+   they add up to exactly what the players have put in *)
+Theorem C01_published_pots_add_up :
+  forall g, (forall i, (i < nplayers g)%nat -> seat_ok (get_p g i)) ->
+    zsum (map pt_total (st_pots (g_st (update_pots g)))) = zsum (map (fun p => p_pot p + p_wager p) (g_players g)).
+Proof. exact published_pots_add_up. Qed.
+Print Assumptions C01_published_pots_add_up.
+
+(* closing clauses.  In every reachable state that carries a result: the hand is closed; the result is the
+   settlement of the vector read off the players (index, pot + wager, folded, bankroll, score); the
+   per-player changes sum to zero; every final stack is the starting bankroll plus that player's change
+   and is not negative; nobody loses more than he put in.
+   chg ps x / fin ps x : the Changed / Final recorded for player x in the result *)
+Theorem C01_closing :
+  forall c deck g ops,
+    cfg_ok c -> create c deck = (g, Ok) ->
+    let s := run g ops in
+    forall r, g_result s = Some r ->
+      st_event (g_st s) = EvGameClosed /\
+      r = settle_vec (player_vec (g_players s)) /\
+      idxs (res_players r) = map zn (seq 0 (nplayers s)) /\
+      sumc (res_players r) = 0 /\
+      forall i, (i < nplayers s)%nat ->
+        let p := get_p s i in
+        fin (res_players r) (zn i) = p_bankroll p + chg (res_players r) (zn i) /\
+        - (p_pot p + p_wager p) <= chg (res_players r) (zn i) /\
+        0 <= fin (res_players r) (zn i).
+Proof. exact closing_result. Qed.
+Print Assumptions C01_closing.
+
+(* once the result is recorded nothing changes any more *)
+Theorem C01_closed_state_is_final :
+  forall g o, Inv g -> st_event (g_st g) = EvGameClosed -> fst (step g o) = g.
+Proof. exact closed_state_fixed. Qed.
+Print Assumptions C01_closed_state_is_final.
+
+(* non-vacuity: a hand played to the showdown carries a result *)
+Example C01_closing_example :
+  let c := mkCfg 0 0 5 10 false 2 0 [] (seqZ_from 0 30) 1
+                 [(40, (true, false, false)); (30, (false, true, false)); (25, (false, false, true))] in
+  exists g, create c (seqZ_from 0 30) = (g, Ok) /\
+  let s := run g [OReady; OPayBlinds; OReady; OAct None AAllin 0; OAct None AAllin 0; OAct None AAllin 0;
+                  ONext; ONext; ONext; ONext] in
+  exists r, g_result s = Some r.
+Proof. eexists. split; [vm_compute; reflexivity|]. vm_compute. eexists. reflexivity. Qed.
